@@ -1,11 +1,10 @@
 package calendar
 
-func VH_DBG_Field() {
-	vhFieldLevel = true
-	base := NewSolar(vParam("Y"), 6, 15, 12, 0, 0).GetLunar()
-	l := vhLunarSym("", base)
-	vAssert("mxe:no-panic", !vPanics(func() { l.GetMonthXunExact() }))
-	f := l.GetFoto()
-	vAssert("xiu:no-panic", !vPanics(func() { f.GetXiu() }))
+func VH_DBG_Year() {
+	ya := vInt("ya", 10, 99)
+	a := vhLunarYmd(ya, 1, 1)
+	vDump("lib", a.GetYearInChinese())
+	vDump("spec", specYearInChinese(ya, 2))
+	vAssert("eq", a.GetYearInChinese() == specYearInChinese(ya, 2))
 	vReach("dbg")
 }
